@@ -62,6 +62,7 @@ func nd_bytes(n int) []byte {
 	return b
 }
 func nd_string(n int) string { return string(nd_bytes(n)) }
+func nd_range(lo, hi int) int { return lo + int(uint64(uint8(verifNext()))%uint64(hi-lo+1)) }
 func vassume(c bool) {
 	if !c {
 		panic(verifAssumeFailed{})
